@@ -43,6 +43,10 @@ enum EU { eu0, eu1 };
 enum EUF : short { euf0 };
 enum class ES { a, b };
 enum class ESC : unsigned char { a };
+enum ESS : signed char { ess0 };
+enum class EUS : unsigned short { a };
+enum class EL : long { a };
+enum EULL : unsigned long long { eull0 };
 
 using nullptr_t = decltype(nullptr);
 using schar     = signed char;
@@ -294,6 +298,10 @@ C15_LEAF(EU, "EU")
 C15_LEAF(EUF, "EUF")
 C15_LEAF(ES, "ES")
 C15_LEAF(ESC, "ESC")
+C15_LEAF(ESS, "ESS")
+C15_LEAF(EUS, "EUS")
+C15_LEAF(EL, "EL")
+C15_LEAF(EULL, "EULL")
 C15_LEAF(Cls, "Cls")
 C15_LEAF(Uni, "Uni")
 
